@@ -27,6 +27,12 @@ var coveredBy = map[string]string{
 	":sampledLFU.del": "TiePolicy", ":defaultPolicy.Cap": "TiePolicy", ":defaultPolicy.Cost": "TiePolicy",
 	"z:Buffer.Grow": "TieBuffer", "z:Buffer.AllocateOffset": "TieBuffer", "z:Buffer.IsEmpty": "TieBuffer",
 	"z:Buffer.SliceAllocate": "TieBuffer", "z:Buffer.writeLen": "TieBuffer", "z:NewBuffer": "TieBuffer",
+	"z:Buffer.Slice": "TieBuffer", "z:Buffer.SliceIterate": "TieBuffer", "z:Buffer.SliceOffsets": "TieBuffer", "z:rawSlice": "TieBufferSort",
+	"z:sortHelper.merge": "TieBufferSort", "z:sortHelper.sort": "TieBufferSort", "z:sortHelper.sortSmall": "TieBufferSort", "z:Buffer.SortSliceBetween": "TieBufferSort",
+	":cmSketch.Increment": "TieSketch", ":cmSketch.Estimate": "TieSketch", ":newCmSketch": "TieSketch", ":newCmRow": "TieSketch",
+	":tinyLFU.Increment": "TieTinyLFU", ":tinyLFU.Estimate": "TieTinyLFU", ":tinyLFU.reset": "TieTinyLFU", ":tinyLFU.clear": "TieTinyLFU", ":tinyLFU.Push": "TieTinyLFU",
+	":defaultPolicy.Add": "TiePolicyAdd", ":sampledLFU.fillSample": "TiePolicyAdd",
+	"z:Tree.newNode": "TieTree", "z:Tree.split": "TieTree", "z:Tree.get": "TieTree", "z:Tree.Get": "TieTree",
 	"z:node.bits": "TieNode", "z:node.compact": "TieNode", "z:node.get": "TieNode", "z:node.isFull": "TieNode",
 	"z:node.isLeaf": "TieNode", "z:node.maxKey": "TieNode", "z:node.moveRight": "TieNode", "z:node.numKeys": "TieNode",
 	"z:node.search": "TieNode", "z:node.set": "TieNode", "z:node.setBit": "TieNode", "z:node.setNumKeys": "TieNode",
